@@ -50,3 +50,30 @@ func (Codec) UnmarshalInterface(bz []byte, ptr interface{}) error {
 func (Codec) UnpackAny(any *types.Any, iface interface{}) error {
 	panic("model.Codec: UnpackAny not modelled")
 }
+
+// NativeCodec is set by the native environment (real protobuf codec with the
+// interface registry); under the engine it stays nil and Codec{} is used.
+var NativeCodec codecBinary
+
+type codecBinary interface {
+	Marshal(o proto.Message) ([]byte, error)
+	MustMarshal(o proto.Message) []byte
+	MarshalLengthPrefixed(o proto.Message) ([]byte, error)
+	MustMarshalLengthPrefixed(o proto.Message) []byte
+	Unmarshal(bz []byte, ptr proto.Message) error
+	MustUnmarshal(bz []byte, ptr proto.Message)
+	UnmarshalLengthPrefixed(bz []byte, ptr proto.Message) error
+	MustUnmarshalLengthPrefixed(bz []byte, ptr proto.Message)
+	MarshalInterface(i proto.Message) ([]byte, error)
+	UnmarshalInterface(bz []byte, ptr interface{}) error
+	UnpackAny(any *types.Any, iface interface{}) error
+}
+
+// CodecFor returns the codec the real keepers should use: the model stub under
+// the engine, the real protobuf codec natively.
+func CodecFor(_ any) codecBinary {
+	if NativeCodec != nil {
+		return NativeCodec
+	}
+	return Codec{}
+}
